@@ -38,7 +38,7 @@ LR::shared_handle acquire(LR* lr, int form)
 {
     using namespace std::chrono_literals;
 #ifdef MODE_C14
-    noblock_begin("lr_guarded read acquisition", 6);
+    noblock_begin("lr_guarded read acquisition", 12);
 #endif
     LR::shared_handle h = form == 0 ? lr->lock_shared() :
         form == 1                   ? lr->try_lock_shared() :
@@ -137,10 +137,60 @@ void body(const Prog& p)
     delete lr;
 }
 
+// A reader keeps its handle until the writer is inside modify() (first functor application done,
+// i.e. it is about to flip and drain), and only then releases: the writer is delayed only by the
+// handle that is still held and must complete once it is released.
+bool g_functor_ran;
+void body_held(int readers, int mods)
+{
+    g_functor_ran = false;
+    hx::win_reset();
+    LR* lr = new LR(0);
+    {
+        Event in[2];
+        std::vector<int> ids;
+        for (int r = 0; r < readers; r++)
+            ids.push_back(spawn([lr, r, &in] {
+                LR::shared_handle h = acquire(lr, r % 4);
+                int v = hx::read_pair(*h, "reader under shared handle");
+                in[r].set();
+                await([] { return g_functor_ran; });
+                point();
+                int v2 = hx::read_pair(*h, "reader under shared handle (after the writer started)");
+                MC_CHECK(v == v2, "changed-under-handle", "value changed from %d to %d while the shared handle was held", v, v2);
+                // handle released here: only now may the writer touch this copy
+            }));
+        ids.push_back(spawn([lr, readers, mods, &in] {
+            for (int r = 0; r < readers; r++) in[r].wait();
+            for (int m = 0; m < mods; m++)
+                lr->modify([](Pair& x) {
+                    hx::WriteWin w(&x, "modify functor");
+                    g_functor_ran = true;
+                    ++x.a;
+                    point();
+                    ++x.b;
+                });
+        }));
+        for (int id : ids) join(id);  // deadlock / livelock detector: the writer must finish
+    }
+    int fin = hx::read_pair(*lr->lock_shared(), "final read");
+    MC_CHECK(fin == mods, "lost-update", "final value %d after %d modifications", fin, mods);
+    delete lr;
+}
+
 void make_items(const Options& o, std::vector<Item>& items)
 {
     bool thorough = o.tier == "thorough";
     int nform = 0;
+    for (int readers = 1; readers <= 2; readers++)
+        for (int mods = 1; mods <= 2; mods++) {
+            Item it;
+            it.name = "lr_guarded<Pair> | " + std::to_string(readers) + " reader(s) hold their handle until the writer is inside modify | writer: modify x" +
+                std::to_string(mods);
+            it.body = [readers, mods] { body_held(readers, mods); };
+            it.bounds = hx::tier_bounds(o, readers == 1 ? 3 : 2, readers == 1 ? 5 : 3);
+            items.push_back(it);
+        }
     auto add = [&](std::vector<int> ws, std::vector<Reader> rs, bool nc, int Pq, int Pt) {
         Prog p{ws, rs, nc};
         Item it;
